@@ -11,3 +11,6 @@ func (wg *WeightedAuthorizationModelGraph) verifAssignWeightsForced() (bool, err
 func verifObserveRoot(*WeightedAuthorizationModelGraph, string) {}
 
 func verifObserveStructure(*WeightedAuthorizationModelGraph) {}
+
+func verifObserveWeightStep(*WeightedAuthorizationModelGraph, string, string, *WeightedAuthorizationModelEdge, []string, error) {
+}
